@@ -583,6 +583,9 @@ carquet_status_t carquet_statistics_range_overlaps(
             case CARQUET_PHYSICAL_DOUBLE:
                 cmp = compare_double(max_value, stats->min_value);
                 break;
+            case CARQUET_PHYSICAL_INT96:
+                cmp = compare_int96(max_value, stats->min_value);
+                break;
             default:
                 cmp = compare_byte_array(max_value, value_len,
                     stats->min_value, (size_t)stats->min_value_len);
@@ -609,6 +612,9 @@ carquet_status_t carquet_statistics_range_overlaps(
                 break;
             case CARQUET_PHYSICAL_DOUBLE:
                 cmp = compare_double(min_value, stats->max_value);
+                break;
+            case CARQUET_PHYSICAL_INT96:
+                cmp = compare_int96(min_value, stats->max_value);
                 break;
             default:
                 cmp = compare_byte_array(min_value, value_len,
